@@ -240,6 +240,10 @@ impl RK23 {
                 err += (ye[i] / tol).powi(2);
             }
             err = (err / n as Float).sqrt();
+            // A candidate state that is not finite is never accepted (its infinite scale would hide the error)
+            if yt.iter().any(|v| !v.is_finite()) {
+                err = Float::INFINITY;
+            }
 
             if err <= 1.0 {
                 // Step accepted
